@@ -3,6 +3,7 @@ follows the capture flag), S3 (capture descriptors agree between compiler and VM
 from facts import origins, callee_name, op_place, op_const, Broken, strip_generics
 import c01
 import emit
+import roles
 from c16 import operand_fields
 
 VM = 'yarel::vm::Vm::'
@@ -24,6 +25,8 @@ def run(rep):
 
 
 def s1(rep, w):
+    global _SB
+    _SB = roles.resolve(w)['slot_base']
     c = w.yarel
     tab = {e['fn']: e for e in c01.table('c06_operand_only.json')}
     r = rep.rule('S1', 'no value-stack slot is dropped while an open upvalue may still point at it: every stack-lowering call is '
@@ -76,6 +79,9 @@ def s1(rep, w):
     r.check(bool(gets) and closed, 'ObjUpvalue::close copies the current value into Closed(..)', 'close() no longer snapshots the variable', cl.loc())
 
 
+_SB = None
+
+
 def ident(org, o):
     """identity of an index value: constants by value, otherwise origin root + field tokens"""
     k = op_const(o)
@@ -86,7 +92,7 @@ def ident(org, o):
     if pl is None:
         return out
     for q in org.get(pl['l'], {(('local', pl['l']),)}):
-        toks = tuple(t for t in q[1:] if not t.startswith('@') and t != '*' and not t.startswith('in ') and not t.startswith('as '))
+        toks = tuple('#slot_base' if t == _SB else t for t in q[1:] if not t.startswith('@') and t != '*' and not t.startswith('in ') and not t.startswith('as '))
         if q[0][0] == 'const':
             out.add(('const', q[0][1]) + toks)
         else:
@@ -107,7 +113,7 @@ def closer_identity(f, org, cb):
     t = f.blocks[cb]['t']
     n = callee_name(t)
     if n.endswith('close_upvalues_for_frame'):
-        return {('slot_base',)}
+        return {('#slot_base',)}
     out = ident(org, t['args'][1])
     # `stack_size() - 1` = the top slot
     if any(x and x[-1:] == ('#bin',) for x in out) or any('#bin' in x for x in out):
@@ -292,6 +298,8 @@ def s5(rep, w):
     """the converse of S1: upvalues are closed only for slots that are about to be discarded. A variable whose slot stays live
     (a suspended fiber's frame, a frame that continues after a call) must stay shared between its frame and the closures that
     captured it; closing it early gives the closures a private copy and later writes on either side are lost."""
+    global _SB
+    _SB = roles.resolve(w)['slot_base']
     c = w.yarel
     r = rep.rule('S5', 'every close_upvalues(i) is followed, on every path, by the value stack being lowered to i: variables whose slots stay live are never closed', floor=5)
     LOWER = {STACK + 'truncate', STACK + 'clear', STACK + 'pop', 'yarel::vm::Vm::pop'}
@@ -305,7 +313,7 @@ def s5(rep, w):
         lowers = {bi: callee_name(t) for bi, t in f.calls() if callee_name(t) in LOWER}
         # removing the frame itself ends the life of every slot from its slot_base up (a finished fiber's stack is never read again)
         frame_pops = {bi for bi, t in f.calls() if strip_generics(callee_name(t) or '') == 'std::vec::Vec::pop' and t['args'] and
-                      'frames' in operand_fields(f, org, t['args'][0])}
+                      roles.resolve(w)['frames'] in operand_fields(f, org, t['args'][0])}
         for bi in frame_pops:
             lowers[bi] = 'frames.pop'
         for n, cb in enumerate(sorted(sites)):
@@ -319,7 +327,7 @@ def s5(rep, w):
             want = set()
             for bi, name in lowers.items():
                 if bi in f.reachable_blocks(cb):
-                    want |= {('slot_base',)} if name == 'frames.pop' else height_identity(f, org, bi, name.replace('yarel::vm::Vm::pop', STACK + 'pop'))
+                    want |= {('#slot_base',)} if name == 'frames.pop' else height_identity(f, org, bi, name.replace('yarel::vm::Vm::pop', STACK + 'pop'))
             r.check(bool(want & got), key + ' / closes exactly the dropped region', 'upvalues are closed from %s but the stack is only lowered to %s: variables below the new '
                     'height that stay live are closed too' % (sorted(map(str, got))[:3], sorted(map(str, want))[:3]), f.loc(f.blocks[cb]['t'].get('sp')))
 
@@ -341,7 +349,7 @@ def s6(rep, w):
             if nm in ('std::vec::Vec::truncate', 'std::vec::Vec::pop', 'std::vec::Vec::clear', 'std::vec::Vec::remove') and t['args']:
                 if org is None:
                     org = origins(f)
-                if 'frames' in operand_fields(f, org, t['args'][0]):
+                if roles.resolve(w)['frames'] in operand_fields(f, org, t['args'][0]):
                     ev.append((bi, nm.rsplit('::', 1)[-1]))
         if not ev:
             continue
